@@ -177,6 +177,7 @@ func (d *c09DHCP) observe(e gen.Env, f []byte) {
 type c09Run struct {
 	stats         atomic.Bool
 	recordHistory bool
+	regDone       atomic.Bool
 	wmu           sync.Mutex
 	workers       []*c09Worker
 	dh      *c09DHCP
@@ -266,11 +267,17 @@ func (cr *c09Run) record(ev regEvent, f func() int) {
 		f()
 		return
 	}
+	if cr.regDone.Load() {
+		return // the history is long enough: the registers (two MACs nobody else touches) are left alone from here on
+	}
 	ev.call = cr.clock.Add(1)
 	ev.out = f()
 	ev.ret = cr.clock.Add(1)
 	cr.hmu.Lock()
 	cr.history = append(cr.history, ev)
+	if len(cr.history) >= 12000 {
+		cr.regDone.Store(true) // operations in flight still complete and are recorded: the history stays closed
+	}
 	cr.hmu.Unlock()
 }
 
